@@ -272,7 +272,8 @@ def cubic_lattices(ctx, rng):
            ("honey3", eg.honeycomb_lattice(3)), ("hso1", eg.hex_square_oct_lattice(1)), ("hso2", eg.hex_square_oct_lattice(2)),
            ("trinon1", eg.tri_non_lattice(1)), ("trinon2", eg.tri_non_lattice(2)), ("multi_graph", eg.multi_graph()),
            ("bridge", eg.bridge_graph()), ("square22", eg.square_lattice(2, 2)), ("two_triangles", eg.two_triangles()),
-           ("ladder6w", eg.n_ladder(6, True))]
+           ("ladder6w", eg.n_ladder(6, True)), ("ladder4", eg.n_ladder(4, False)), ("ladder5", eg.n_ladder(5, False)), ("ladder7w", eg.n_ladder(7, True)),
+           ("brick_wall42", zoo.brick_wall(4, 2)), ("brick_wall44", zoo.brick_wall(4, 4)), ("brick_wall64", zoo.brick_wall(6, 4))]
     Ns = [2, 3, 4, 5, 6, 9, 16, 30, 60] if quick else [2, 3, 4, 5, 6, 7, 8, 9, 12, 16, 25, 40, 60, 90, 130, 200]
     reps = 1 if quick else 3
     for N in Ns:
